@@ -470,7 +470,54 @@ func (e *emitter) c05Effects(s *source, rel, goName, leanName string, cfg c05Eff
 		goName, rel, leanName, strings.Join(out, ", "))
 }
 
+// c05Forward lists the arguments of the first call of `callee` inside goName (function literals abbreviated to
+// `func`, a spread argument keeps its `...`): what a delegating entry point hands on.
+func (e *emitter) c05Forward(s *source, rel, goName, callee, leanName string) {
+	fd := s.findFunc(rel, goName)
+	var out []string
+	found := false
+	if fd != nil {
+		ast.Inspect(fd.Body, func(n ast.Node) bool {
+			x, ok := n.(*ast.CallExpr)
+			if !ok || found || s.src(x.Fun) != callee {
+				return true
+			}
+			found = true
+			for i, a := range x.Args {
+				tok := s.src(a)
+				if _, isLit := a.(*ast.FuncLit); isLit {
+					tok = "func"
+				}
+				if i == len(x.Args)-1 && x.Ellipsis.IsValid() {
+					tok += "..."
+				}
+				out = append(out, tok)
+			}
+			return false
+		})
+	}
+	if !found {
+		e.errors = append(e.errors, "no call of "+callee+" in "+goName+" ("+rel+")")
+		out = []string{"MISSING"}
+	}
+	e.stringList(leanName, "arguments `"+goName+"` in "+rel+" hands to `"+callee+"`", out)
+}
+
 func c05Round5(s *source, e *emitter) {
+	const mrf = "core/mr/mapreduce.go"
+	e.c05Forward(s, mrf, "MapReduce", "mapReduceWithPanicChan", "mrMapReduceFwd")
+	e.c05Forward(s, mrf, "MapReduceChan", "mapReduceWithPanicChan", "mrMapReduceChanFwd")
+	e.c05Forward(s, mrf, "MapReduceVoid", "MapReduce", "mrMapReduceVoidFwd")
+	e.c05Forward(s, mrf, "Finish", "MapReduceVoid", "mrFinishFwd")
+	e.c05Forward(s, mrf, "FinishVoid", "ForEach", "mrFinishVoidFwd")
+	e.c05Forward(s, mrf, "ForEach", "buildOptions", "mrForEachFwd")
+	e.c05Forward(s, mrf, "mapReduceWithPanicChan", "buildOptions", "mrCoreFwd")
+	e.c05Forward(s, "core/syncx/timeoutlimit.go", "TimeoutLimit.TryBorrow", "l.limit.TryBorrow", "tlTryBorrowFwd")
+	e.c05Forward(s, "core/syncx/timeoutlimit.go", "TimeoutLimit.Return", "l.limit.Return", "tlReturnFwd")
+	e.c05Forward(s, "core/syncx/barrier.go", "Barrier.Guard", "Guard", "barrierGuardFwd")
+	e.c05Forward(s, "core/threading/workergroup.go", "WorkerGroup.Start", "group.RunSafe", "workerGroupFwd")
+	e.c05Forward(s, "rest/handler/maxconnshandler.go", "MaxConnsHandler", "syncx.NewLimit", "maxConnsNewLimitFwd")
+	e.c05Forward(s, "core/fx/stream.go", "Stream.Walk", "s.walkLimited", "fxWalkLimitedFwd")
 	e.printf("/-- the property-relevant effect kinds (extracted order-of-effects lists are lists of these) -/\n" +
 		"inductive Eff where\n  | acquire | tryAcquire | release | tryRelease | wgAdd | wgDone | wgWait | user\n  deriving Repr, DecidableEq\n\n")
 	lim := c05EffCfg{chans: []string{"l.pool"}}
